@@ -77,10 +77,12 @@ func (h *NFSProcedureHandler) HandleCall(call *RPCCall, body io.Reader, authCtx 
 	// is in progress, causing us to return JUKEBOX so clients retry.
 	if !handler.policyRWMu.TryRLock() {
 		// Policy drain in progress -- return NFSERR_JUKEBOX
-		var buf bytes.Buffer
-		xdrEncodeUint32(&buf, NFSERR_JUKEBOX)
-		reply.Data = buf.Bytes()
-		return reply, nil
+		if r := nfsDrainReply(call, reply); r != nil {
+			return r, nil
+		}
+		// The call has no result that can carry JUKEBOX (NULL, MOUNT, unknown
+		// program/version/procedure): wait for the drain, then dispatch normally.
+		handler.policyRWMu.RLock()
 	}
 	// DO NOT defer RUnlock here -- the goroutine owns the lock so that
 	// drain-and-swap blocks until the goroutine's filesystem work finishes,
@@ -230,6 +232,30 @@ func nfsErrorWithDoubleWcc(reply *RPCReply, status uint32) *RPCReply {
 	xdrEncodeUint32(&buf, 0) // todir wcc post_op_attr: FALSE
 	reply.Data = buf.Bytes()
 	return reply
+}
+
+// nfsDrainReply builds the NFSERR_JUKEBOX reply sent while a policy drain is in
+// progress, shaped as the resfail result of the called NFSv3 procedure. It
+// returns nil for calls whose result type has no nfsstat3 status.
+func nfsDrainReply(call *RPCCall, reply *RPCReply) *RPCReply {
+	if call.Header.Program != NFS_PROGRAM || call.Header.Version != NFS_V3 {
+		return nil
+	}
+	switch call.Header.Procedure {
+	case NFSPROC3_GETATTR:
+		return nfsErrorReply(reply, NFSERR_JUKEBOX)
+	case NFSPROC3_LOOKUP, NFSPROC3_ACCESS, NFSPROC3_READLINK, NFSPROC3_READ,
+		NFSPROC3_READDIR, NFSPROC3_READDIRPLUS, NFSPROC3_FSSTAT, NFSPROC3_FSINFO, NFSPROC3_PATHCONF:
+		return nfsErrorWithPostOp(reply, NFSERR_JUKEBOX)
+	case NFSPROC3_SETATTR, NFSPROC3_WRITE, NFSPROC3_CREATE, NFSPROC3_MKDIR, NFSPROC3_SYMLINK,
+		NFSPROC3_MKNOD, NFSPROC3_REMOVE, NFSPROC3_RMDIR, NFSPROC3_COMMIT:
+		return nfsErrorWithWcc(reply, NFSERR_JUKEBOX)
+	case NFSPROC3_RENAME:
+		return nfsErrorWithDoubleWcc(reply, NFSERR_JUKEBOX)
+	case NFSPROC3_LINK:
+		return nfsErrorWithPostOpAndWcc(reply, NFSERR_JUKEBOX)
+	}
+	return nil
 }
 
 // lookupNode retrieves a node from the file handle map
